@@ -1180,6 +1180,12 @@ var proofCheck = &core.Check{Name: "c19/proof", Quick: 12000, Thorough: 600000, 
 			return fmt.Errorf("CreateSignedProof: %v", err)
 		}
 		c.Class("CreateSignedProof cross-check")
+		// a proof the key holder makes with the library's own helper is a genuine proof: where the harness-signed
+		// proof for the same wallet, payload, domain and time is one the server has to accept, this one is too
+		// (the reference reads the state-init text the way the server is specified to: padded standard base64)
+		if v0, v1 := judge(wld, pr), judge(wld, hp); v0.accept && v0.sure && !v1.accept {
+			return fmt.Errorf("CreateSignedProof made a proof that is not a genuine one by the reference's reading (%s) although the harness-signed proof for the same wallet, payload, domain and time is; state-init text %q, the wallet's state-init is %q", v1.why, hp.Proof.StateInit, w.si)
+		}
 		if err := present(c, wld, srv, hp, fmt.Sprintf("proof made by CreateSignedProof %+v", *hp), false); err != nil {
 			return err
 		}
